@@ -1,5 +1,6 @@
 import Proofs.Chain
 import Proofs.Liveness
+import Proofs.HistOK
 import Pegnet.Generated.Facts
 /-
   C08 — Sync liveness. Two defects found by this check were repaired in /repo (known-findings.jsonl:
@@ -182,6 +183,24 @@ theorem conversion_entry_arrival_never_fails (P : Params) (h : Nat) (keymr : Str
     ∃ s', applyTxEntry P h keymr bo e s = .ok () s' :=
   Pegnet.conversion_entry_arrival_never_fails P h keymr bo e s hconv hfresh hhold
 
+/-! ### on every reachable ledger -/
+
+/-- the history is consistent along every chain: every row of `pn_history_transaction` belongs to a
+    recorded batch (so an entry that is not recorded has no row yet) -/
+theorem history_consistent_along_every_chain (P : Params) (chain : List Block) :
+    HistOK (runBlocks P (freshNode P) chain).db :=
+  runBlocks_histOK P _ chain (histOK_fresh P)
+
+/-- **No transaction-chain entry block made of transfer-only and invalid entries can fail, after
+    any chain.** `HarmlessEntry`: the entry does not validate, or it is a batch of plain transfers
+    (any number, any outputs, any amounts, funded or not) of one sender other than the burn address.
+    The hypothesis `hfresh` of `transfer_entry_never_fails` is discharged by the invariant. -/
+theorem harmless_tx_block_never_fails_after_any_chain (P : Params) (chain : List Block) (h : Nat) (keymr : String)
+    (es : List TxEntry) (he : ∀ e ∈ es, HarmlessEntry P h e) :
+    ∃ s', applyTransactionBlock P h keymr es (runBlocks P (freshNode P) chain).db = .ok () s' := by
+  obtain ⟨s', h', _⟩ := harmless_tx_block_never_fails P h keymr es _ (history_consistent_along_every_chain P chain) he
+  exact ⟨s', h'⟩
+
 /-- non-vacuity: a two-output transfer with change meets `PlainTransfer` -/
 example : PlainTransfer wP { inAddr := "alice", inType := 2, inAmount := 100, transfers := [⟨"bob", 70⟩, ⟨"alice", 30⟩], conversion := 0 } :=
   ⟨by decide, by decide, by decide, by decide, by decide⟩
@@ -202,3 +221,5 @@ end Pegnet.C08
 #print axioms Pegnet.C08.transfer_entry_never_fails
 #print axioms Pegnet.C08.transfer_batch_applied_or_rejected
 #print axioms Pegnet.C08.conversion_entry_arrival_never_fails
+#print axioms Pegnet.C08.history_consistent_along_every_chain
+#print axioms Pegnet.C08.harmless_tx_block_never_fails_after_any_chain
